@@ -103,21 +103,28 @@ def entry_case(name, inner):
         import gprod
         f = E.fn(name, lambda e: e.mf.crate == 'sv-parser-parser' and e.argnorm == ['LocatedSpan'])
         prods = gprod.productions(E.prog())
-        if inner not in prods:
+        if inner is not None and inner not in prods:
             raise Inconclusive('start symbol %s not found' % inner)
+        inner_given = inner
 
         def body(it):
+            inner = inner_given
             it.env['g'] = G.GState()
             it.env['const_hook'] = G.const_hook_tls
             it.env['tls'] = {'IN_DIRECTIVE': None, 'CURRENT_VERSION': None, 'PACKRAT_STORAGE': None}
             it.env['tls'] = sym_prestate(it)
-            it.env['self_name'] = inner
+            it.env['self_name'] = inner or ''
             it.env['span_returning'] = gprod.SPAN_RETURNING
             seen = {'top': [], 'sub': []}
 
             def hook(it2, pname, path, sp, dest_ty):
+                nonlocal inner
                 if not seen.get('in_inner'):
                     seen['top'].append((pname, sp.data['off']))
+                    if inner is None and pname in prods:
+                        # an entry outside the five known ones: its start symbol is the production it calls first
+                        inner = pname
+                        it2.env['self_name'] = inner
                     if pname != inner:
                         return G.nom_error(it2, sp)
                     seen['in_inner'] = True
@@ -239,10 +246,24 @@ def statics_case():
     return Case('statics', work)
 
 
+def public_entries():
+    """public functions of the parser crate root that take a Span: every way into the grammar from outside the crate"""
+    known = {'sv_parser': 'source_text', 'sv_parser_incomplete': 'source_text_incomplete', 'lib_parser': 'library_text',
+             'lib_parser_incomplete': 'library_text_incomplete', 'pp_parser': 'preprocessor_text'}
+    out = dict(known)
+    try:
+        src = open(os.path.join(build.SNAP, 'sv-parser-parser', 'src', 'lib.rs'), encoding='utf-8').read()
+        src = re.sub(r'//[^\n]*', '', src)
+        for m in re.finditer(r'\bpub\s+fn\s+(\w+)\s*(?:<[^>]*>)?\s*\(\s*(?:mut\s+)?\w+\s*:\s*Span\b', src):
+            out.setdefault(m.group(1), None)
+    except OSError:
+        pass
+    return sorted(out.items())
+
+
 def families(args):
     cases = [init_case(), statics_case()]
-    for name, inner in (('sv_parser', 'source_text'), ('sv_parser_incomplete', 'source_text_incomplete'), ('lib_parser', 'library_text'),
-                        ('lib_parser_incomplete', 'library_text_incomplete'), ('pp_parser', 'preprocessor_text')):
+    for name, inner in public_entries():
         cases.append(entry_case(name, inner))
     return [ppprop.Family('history-independence', cases, None, ('state',), custom_work=lambda c: c.fn())]
 
@@ -250,7 +271,7 @@ def families(args):
 def main():
     args = proprun.parse_args(PID)
     return ppprop.run(PID, 'model_checking', families, args,
-                      rule='init-step: every prior thread state within the bound (4 x 4 x 4 depths, 9 top selectors) through the real init() MIR; entry-points: each public parser entry from every such state with '
+                      rule='init-step: every prior thread state within the bound (4 x 4 x 4 depths, 9 top selectors) through the real init() MIR; entry-points: each public parser entry (the pub fn(Span) items of sv-parser-parser/src/lib.rs, read from the source on every run) from every such state with '
                            'the grammar function stubbed; statics: enumeration of static/thread_local items of the five crates + count of #[recursive_parser] functions',
                       bounds={'tier': args.tier, 'stack depths': '0..3', 'memo entries': '0..3'},
                       outside=['stacks deeper than 3 (Vec::clear / PackratStorage::clear are length-independent)', 'HashMap iteration order of returned tables', 'scope pairing inside one call (checked by C12)'],
